@@ -8,6 +8,7 @@ directories. Observed: byte/mtime/inode/mode snapshots before and after, the sys
 paths were opened with write intent, any other modifying syscall), the exit status.
 """
 import json
+import os
 
 import clilib
 import ftree
@@ -69,6 +70,18 @@ def pinned_cases(lf, tier):
         for b in DIR_CLASSES:
             if ok([a, b]):
                 add([a, b], as_dir=True)
+    # every pair once more with a formatting range given (the whole text, open on either side): a failure is
+    # a failure with a range too (--verify, parse errors, unreadable files)
+    for a in SEQ_CLASSES:
+        for b in SEQ_CLASSES:
+            if ok([a, b]) and (tier == "thorough" or (idx % 3 == 0)):
+                add([a, b])
+                c = cases[-1]
+                c["opts"]["range"] = [[0, None], [None, 1000000], [0, 1000000]][idx % 3]
+                c["argv"] = ftree.build_argv(c["opts"], c["targets"])
+                c["tag"] += "+range"
+            else:
+                idx += 1
     for v in range(4):
         for t in THREADS:
             if tier == "thorough" or (v + t) % 2 == 0:
@@ -198,6 +211,57 @@ def exec14(case):
     return ftree.execute(case, exit_trace=False)
 
 
+def write_fault_leg(lf, tally):
+    """A write that the kernel only partly accepts (file-size limit: the same happens on a full disk or an
+    exhausted quota; SIGXFSZ ignored so that write(2) reports it). The file that cannot be completed is a
+    failing file: exit status 2, a message, the other files still formatted - and it holds its original or
+    its complete formatted text, nothing in between."""
+    import resource
+    import signal
+    import subprocess
+
+    big = "".join(f"local   value_{i:04d}   =   {i}\n" for i in range(1, 401))
+    small = "local   y   =   2\n"
+    want_big = lf.format(big, clilib.cfg())[1].encode()
+    want_small = lf.format(small, clilib.cfg())[1].encode()
+
+    def limited():
+        signal.signal(signal.SIGXFSZ, signal.SIG_IGN)
+        resource.setrlimit(resource.RLIMIT_FSIZE, (2048, 2048))
+
+    for order in (["big.lua", "small.lua"], ["small.lua", "big.lua"], ["."]):
+        for threads in (None, 1, 16):
+            with clilib.Scratch(prefix="sv-c14-fsize-") as sc:
+                sc.write("big.lua", big.encode())
+                sc.write("small.lua", small.encode())
+                args = [clilib.STYLUA] + (["--num-threads", str(threads)] if threads else []) + order
+                try:
+                    p = subprocess.run(args, cwd=sc.root, env=sc.env({}), capture_output=True, timeout=120, preexec_fn=limited)
+                except subprocess.TimeoutExpired:
+                    tally.inconclusive += 1
+                    continue
+                got_big = open(os.path.join(sc.root, "big.lua"), "rb").read()
+                got_small = open(os.path.join(sc.root, "small.lua"), "rb").read()
+            tally.evaluations += 1
+            tally.counters["write_fault.runs"] = tally.counters.get("write_fault.runs", 0) + 1
+            case = {"write_fault_case": {"order": order, "threads": threads}}
+
+            def report(sig_, detail):
+                tally.per_signature[sig_] = tally.per_signature.get(sig_, 0) + 1
+                if sum(1 for x in tally.findings if x["signature"] == sig_) < 2:
+                    tally.findings.append({"oracle": "write-fault", "signature": sig_, "detail": detail, "case": case})
+
+            if got_big == want_big:
+                tally.counters["write_fault.limit_did_not_bite"] = tally.counters.get("write_fault.limit_did_not_bite", 0) + 1
+                continue
+            if p.returncode != 2:
+                report(f"C14:write-fault:exit-status:{p.returncode}", f"{order} threads={threads}: big.lua could not be written completely ({len(got_big)} of {len(want_big)} bytes), exit status {p.returncode}, stderr {p.stderr[:200]!r}")
+            if got_big != big.encode():
+                report("C14:write-fault:partial-file-left", f"{order} threads={threads}: after the failed write big.lua holds {len(got_big)} bytes: neither its original ({len(big)}) nor its complete formatted text ({len(want_big)})")
+            if got_small != want_small:
+                report("C14:write-fault:other-file-not-formatted", f"{order} threads={threads}: small.lua was not formatted although only big.lua failed")
+
+
 def run(tier, seed):
     lf = clilib.LibFmt()
     try:
@@ -207,6 +271,7 @@ def run(tier, seed):
             cases.append(c13.random_case(rng, lf, tier, check=False))
         tally = c13.Tally(PROP, lf, judge, exec14)
         ftree.run_all(cases, exec14, tally.on_result)
+        write_fault_leg(lf, tally)
         return tally.result(len(cases))
     finally:
         lf.close()
@@ -215,6 +280,10 @@ def run(tier, seed):
 def replay(case):
     lf = clilib.LibFmt()
     try:
+        if "write_fault_case" in case:
+            t = c13.Tally(PROP, lf, judge, exec14)
+            write_fault_leg(lf, t)
+            return [{"oracle": f["oracle"], "signature": f["signature"], "detail": f["detail"]} for f in t.findings]
         obs = exec14(case)
         if obs.get("skipped") or obs["timed_out"] or obs["rc"] is None:
             print("inconclusive: " + str(obs.get("skipped") or "timeout"))
